@@ -28,6 +28,13 @@ def strategy_(draw):
     spec = draw(gen.map_cases(max_cells=4, max_iter=2, pooled_markers=True, min_levels=draw(st.sampled_from([1, 2, 3]))))
     variant = draw(st.sampled_from(['ok'] * 7 + ['root_unusable', 'unknown_to_reference', 'no_shared_marker']))
     spec = copy.deepcopy(spec)
+    if draw(st.booleans()):
+        # a query that lacks a good part of the reference genes (a reduced gene panel): the fallback rule
+        # is then decided by the genes PRESENT in the query, not by the length of the lists
+        keep_root = spec['markers']['None'][0]
+        qg = spec['query']['genes']
+        flags = draw(st.lists(st.integers(0, 9), min_size=len(qg), max_size=len(qg)))
+        spec['query']['genes'] = [g for g, f in zip(qg, flags) if g == keep_root or f < 5]
     spec['variant'] = variant
     vt = treemodel.Tree(refmodel.voting_tree(spec))
     if variant == 'root_unusable':
